@@ -1025,6 +1025,8 @@ func buildReplayTest(p *Prog, o *Obligation, smtDir string) (src, pkgDir, how, r
 	}
 	// clauses
 	var checks []string
+	var preChecks []string
+	reqUntranslated := 0
 	if x.FC != nil {
 		g0 := map[string]string{}
 		for i, n := range x.FC.Params {
@@ -1044,6 +1046,23 @@ func buildReplayTest(p *Prog, o *Obligation, smtDir string) (src, pkgDir, how, r
 				g0["err"] = rs[nres-1]
 			}
 		}
+		// preconditions first: an input that does not meet them (the reconstruction leaves out what it cannot build)
+		// proves nothing; the test is skipped then
+		gpre := map[string]string{}
+		for i, n := range x.FC.Params {
+			if i < len(args) {
+				gpre[n] = args[i]
+			}
+		}
+		for _, c := range x.FC.Requires {
+			g := &goTr{b: b, names: gpre, bound: map[string]bool{}, cf: x.CF}
+			sreq := g.tr(c.E)
+			if g.err != "" {
+				reqUntranslated++
+				continue
+			}
+			preChecks = append(preChecks, fmt.Sprintf("\tif !(%s) {\n\t\tt.Skip(\"GOVC-REPLAY precondition not met by the constructed input\")\n\t}", sreq))
+		}
 		for _, c := range x.FC.Ensures {
 			if c.UsesLog {
 				continue
@@ -1061,8 +1080,9 @@ func buildReplayTest(p *Prog, o *Obligation, smtDir string) (src, pkgDir, how, r
 		uses += "\t_ = " + r + "\n"
 	}
 	pkgDir = strings.TrimPrefix(strings.TrimPrefix(fn.Pkg.Pkg.Path(), p.ModPath), "/")
+	// requires checks go before the call; they are droppable like the others (indices 0..len(preChecks)-1)
 	plan := &replayPlan{pkg: fn.Pkg.Pkg.Name(), obligation: o.Name, imports: b.imports,
-		pre: strings.Join(setup, "\n") + "\n\t" + callStmt + "\n" + uses, checks: checks}
+		setup: strings.Join(setup, "\n") + "\n", pre: "\t" + callStmt + "\n" + uses, checks: append(append([]string{}, preChecks...), checks...), nPre: len(preChecks), reqUntranslated: reqUntranslated}
 	lastPlan = plan
 	return plan.render(nil), pkgDir, how, ""
 }
@@ -1072,8 +1092,10 @@ func buildReplayTest(p *Prog, o *Obligation, smtDir string) (src, pkgDir, how, r
 type replayPlan struct {
 	pkg, obligation string
 	imports         map[string]string
-	pre             string
+	setup, pre      string
 	checks          []string
+	nPre            int // the first nPre checks are preconditions, placed before the call
+	reqUntranslated int
 	checkLine       []int // first line of each check in the last rendering
 }
 
@@ -1084,7 +1106,7 @@ func (pl *replayPlan) render(skip map[int]bool) string {
 	var body strings.Builder
 	body.WriteString("func govcIte[T any](c bool, a, b T) T {\n\tif c {\n\t\treturn a\n\t}\n\treturn b\n}\n\nvar _ = govcIte[int]\n\n")
 	body.WriteString("func TestGovcReplay(t *testing.T) {\n\tdefer func() {\n\t\tif r := recover(); r != nil {\n\t\t\tt.Fatalf(\"GOVC-REPLAY panic: %v\", r)\n\t\t}\n\t}()\n")
-	body.WriteString(pl.pre)
+	body.WriteString(pl.setup)
 	var kept []struct {
 		idx  int
 		text string
@@ -1098,9 +1120,17 @@ func (pl *replayPlan) render(skip map[int]bool) string {
 		}
 	}
 	marks := make([]string, len(kept))
+	wroteCall := false
 	for i, k := range kept {
+		if k.idx >= pl.nPre && !wroteCall {
+			body.WriteString(pl.pre)
+			wroteCall = true
+		}
 		marks[i] = fmt.Sprintf("//@@check%d\n", k.idx)
 		body.WriteString(marks[i] + k.text + "\n")
+	}
+	if !wroteCall {
+		body.WriteString(pl.pre)
 	}
 	body.WriteString("}\n")
 	code := body.String()
